@@ -416,6 +416,64 @@ def _placements(atom: int, ctx: int, pos: int) -> bool:
     return result(ok, rule is not None)
 
 
+# ---- directive locations: every directive x every executable location x nesting
+from py_gql.schema import Directive, Argument as _Argument, Boolean as _Boolean   # noqa: E402
+
+EXEC_LOCATIONS = ("QUERY", "MUTATION", "FIELD", "FRAGMENT_DEFINITION", "FRAGMENT_SPREAD", "INLINE_FRAGMENT")
+DIRECTIVE_USES = tuple(("on" + loc.title().replace("_", ""), (loc,), "") for loc in EXEC_LOCATIONS) + (
+    ("multi", ("FIELD", "QUERY", "FRAGMENT_DEFINITION"), ""), ("skip", ("FIELD", "FRAGMENT_SPREAD", "INLINE_FRAGMENT"), "(if: true)"),
+    ("include", ("FIELD", "FRAGMENT_SPREAD", "INLINE_FRAGMENT"), "(if: false)"), ("deprecated", (), ""), ("nope", None, ""))
+# (location, template) - %D is the directive use
+PLACEMENTS = (
+    ("QUERY", "query %D { n }"), ("QUERY", "query Q %D { n } query R { n }"), ("QUERY", "query R { n } query Q ($v: Int) %D { echo(x: $v) }"),
+    ("MUTATION", "mutation %D { bump(by: 1) }"), ("MUTATION", "query Q { n } mutation M %D { bump(by: 1) }"),
+    ("FIELD", "{ n %D }"), ("FIELD", "{ me { name %D } }"), ("FIELD", "{ me %D { name } }"), ("FIELD", "{ ... on Query { me { best { age %D } } } }"),
+    ("FIELD", "{ ...F } fragment F on Query { n %D }"), ("FIELD", "mutation { bump(by: 1) %D }"), ("FIELD", "{ a: n b: n %D }"),
+    ("FRAGMENT_DEFINITION", "{ ...F } fragment F on Query %D { n }"), ("FRAGMENT_DEFINITION", "fragment G on User %D { name } { me { ...G } }"),
+    ("FRAGMENT_SPREAD", "{ ...F %D } fragment F on Query { n }"), ("FRAGMENT_SPREAD", "{ me { ...G %D } } fragment G on User { name }"),
+    ("FRAGMENT_SPREAD", "{ ...F } fragment F on Query { me { ...G %D } } fragment G on User { name }"),
+    ("INLINE_FRAGMENT", "{ ... %D { n } }"), ("INLINE_FRAGMENT", "{ ... on Query %D { n } }"), ("INLINE_FRAGMENT", "{ me { ... on User %D { name } } }"),
+    ("INLINE_FRAGMENT", "{ ...F } fragment F on Query { ... %D { n } }"),
+)
+_DSCHEMA = None
+
+
+def directive_schema():
+    global _DSCHEMA
+    if _DSCHEMA is None:
+        _DSCHEMA = G.build_real_schema(directives=[Directive(name, list(locs)) for name, locs, _ in DIRECTIVE_USES if name.startswith("on") or name == "multi"])
+    return _DSCHEMA
+
+
+def _directive_locations(d: int, pl: int, twice: bool) -> bool:
+    """
+    pre: 0 <= d < len(DIRECTIVE_USES) and 0 <= pl < len(PLACEMENTS)
+    post: _
+    """
+    name, locs, args = pick(d, DIRECTIVE_USES)
+    loc, tpl = pick(pl, PLACEMENTS)
+    TW = True if twice else False
+    if TW and name == "onField":
+        return result(True, False)          # would be a duplicate (another rule)
+    with untraced():
+        use = "@%s%s" % (name, args)
+        text = tpl.replace("%D", use + (" @onField" if TW else ""))          # a second, always-known directive next to it must not matter
+        s = directive_schema()
+        type_info = TypeInfoVisitor(s)
+        visitors = [cls(s, type_info) for cls in SPECIFIED_RULES]
+        ChainedVisitor(type_info, *visitors).visit(parse(text))
+        rules = sorted({type(v).__name__ for v in visitors if v.errors})
+        verdict = not validate_ast(s, parse(text)).errors
+        allowed = locs is not None and loc in locs
+        second_allowed = (not TW) or loc == "FIELD"
+        ok = ("KnownDirectivesChecker" in rules) == (not (allowed and second_allowed))
+        if allowed and second_allowed:
+            ok = ok and verdict and not rules
+        else:
+            ok = ok and not verdict
+    return result(ok, True)
+
+
 CONDITIONS = [
     Cond(
         name="metamorphic", fn=_metamorphic, quick=150, thorough=900, per_path=60, shards_quick=16, shards_thorough=30,
@@ -431,7 +489,11 @@ CONDITIONS = [
          bound="%d atoms (one rule violation each, or a valid control; input-object violations in %d nesting contexts, also as variable defaults) x %d selection contexts (operation, typed / untyped / directive inline fragment, "
                "named fragments before / after / nested / shared, second operation) x %d sibling positions (quick: context or position fixed to the first): the rule reports, the verdict is invalid and the reported rule set "
                "equals that of the plain placement; controls stay valid" % (len(ATOMS), len(VALUE_CONTEXTS), len(SELECTION_CONTEXTS), len(SIBLINGS)),
-         symbolic={"atom": "choice: violation", "ctx": "choice: selection context", "pos": "choice: siblings"}, witness={"atom": 2, "ctx": 4, "pos": 1}),
+         symbolic={"atom": "choice: violation", "ctx": "choice: selection context", "pos": "choice: siblings"}, witness={"atom": 2, "ctx": 4, "pos": 0}),
+    Cond(name="directive_locations", fn=_directive_locations, quick=60, thorough=120,
+         bound="%d directives (one custom directive per executable location, a multi-location one, @skip, @include, @deprecated, an unknown one) x %d placements over the 6 executable locations of a query/mutation schema "
+               "(root and nested, inside fragments, second operation) x alone / followed by a second directive: KnownDirectives reports iff the location is not declared" % (len(DIRECTIVE_USES), len(PLACEMENTS)),
+         symbolic={"d": "choice: directive", "pl": "choice: placement", "twice": "choice"}, witness={"d": 2, "pl": 5, "twice": False}),
     Cond(name="cycles", fn=_cycles, quick=100, thorough=300, shards_quick=8, shards_thorough=8, per_path=60,
          bound="EVERY directed spread graph on 3 fragments (512 adjacency matrices incl. self loops) x all 6 definition orders: NoFragmentCycles reports iff some fragment reaches itself",
          symbolic={"adj": "choice: adjacency matrix", "order": "choice: definition order"}, witness={"adj": 2, "order": 0}),
